@@ -611,7 +611,10 @@ func twoServiceHistory(seed int64) rec {
 		}
 	}
 	delivered, _ := conn.Deliver(svcs[0].subj, "inbox.two1", []byte(`{"query":"id=two1"}`))
-	time.Sleep(15 * time.Millisecond)
+	for t := 0; t < 2000 && len(conn.PubsOn("inbox.two1")) == 0; t++ {
+		time.Sleep(time.Millisecond)
+	}
+	time.Sleep(5 * time.Millisecond) // (a second response or the other service's callback would come right away)
 	replies := len(conn.PubsOn("inbox.two1"))
 	own, foreign := atomic.LoadInt32(&svcs[0].calls), atomic.LoadInt32(&svcs[1].calls)
 	return rec{"judge": "fresh", "fresh": fresh && delivered == 1 && replies == 1 && own == 1 && foreign == 0, "overlap": false, "recv": []string{}, "badpayload": []bool{}, "cblog": []string{}, "replies": [][]interface{}{}, "kinds": [][]interface{}{},
@@ -660,8 +663,19 @@ func durationHistory(seed int64) []rec {
 	}
 	defer w.close()
 	t0 := time.Now()
+	refLate := new(int64) // by how much a reference timer of the same duration was late (0: has not fired)
+	time.AfterFunc(d2, func() {
+		l := time.Since(t0) - d2
+		if l <= 0 {
+			l = 1
+		}
+		atomic.StoreInt64(refLate, int64(l))
+	})
 	if !w.startQuery() {
 		return nil
+	}
+	if time.Since(t0) > 20*time.Millisecond {
+		return nil // starting the query event took long: the time base is off
 	}
 	var out []rec
 	src := fmt.Sprintf("duration history seed %d: first life %v, restarted=%v, query event duration now %v", seed, d1, restarted, d2)
@@ -675,13 +689,36 @@ func durationHistory(seed int64) []rec {
 			r["judge"] = "active"
 			out = append(out, r)
 		}
-		time.Sleep(d2 - time.Since(t0) + 40*time.Millisecond)
-		out = append(out, w.record([]string{"mid1"}, false, true, src+" - after the duration"))
+		if w.awaitEnd(t0, d2, refLate) {
+			out = append(out, w.record([]string{"mid1"}, false, true, src+" - after the duration"))
+		}
 		return out
 	}
-	time.Sleep(d2 + 50*time.Millisecond)
-	out = append(out, w.record(nil, false, true, src+" - after the duration"))
+	if w.awaitEnd(t0, d2, refLate) {
+		out = append(out, w.record(nil, false, true, src+" - after the duration"))
+	}
 	return out
+}
+
+// awaitEnd waits until the query event started at t0 has had its duration d plus 120 ms (a reference timer
+// armed together with it tells when that is on this machine), but no longer than it takes the final nil
+// call to come and the listener to go. It reports false when the reference timer itself was more than
+// 50 ms late: the machine is too busy for the end of the run to be judged.
+func (w *world) awaitEnd(t0 time.Time, d time.Duration, refLate *int64) bool {
+	deadline := t0.Add(d + 120*time.Millisecond)
+	for time.Now().Before(deadline) {
+		o := w.obs()
+		o.mu.Lock()
+		ended := len(o.cblog) > 0 && o.cblog[len(o.cblog)-1] == "nil"
+		o.mu.Unlock()
+		if ended && time.Since(t0) > d && listenerCount() == 0 {
+			break
+		}
+		time.Sleep(time.Millisecond)
+	}
+	time.Sleep(3 * time.Millisecond) // (a second nil call would come right away)
+	late := time.Duration(atomic.LoadInt64(refLate))
+	return late != 0 && late < 50*time.Millisecond
 }
 
 // Run executes the C15 check.
